@@ -1035,12 +1035,16 @@ def _sbml_to_model(
         # calculate hashmaps to lookup objects in O(1)
         sid_map = {}
         metaid_map = {}
-        for obj_list in [
+        obj_lists = [
             model.getListOfCompartments(),
             model.getListOfSpecies(),
             model.getListOfReactions(),
             model_groups.getListOfGroups(),
-        ]:
+        ]
+        # genes can be members of groups as well
+        if model_fbc:
+            obj_lists.append(model_fbc.getListOfGeneProducts())
+        for obj_list in obj_lists:
             sbase: "libsbml.SBase"
             for sbase in obj_list:
                 if sbase.isSetId():
